@@ -834,7 +834,7 @@ func (cs *c20Case) dumpOpt(cacheAnswers bool) string {
 		}
 		chans = append(chans, fmt.Sprintf("%d:%d:%d:%d:%d:%d:%d:%s:%s:%s.%d", i.ChannelID,
 			h.keyID(i.NodeKey1Bytes), h.keyID(i.NodeKey2Bytes), h.keyID(b1), h.keyID(b2),
-			int64(i.Capacity), c20b2i(i.AuthProof != nil), feat, c20hx(i.ExtraOpaqueData),
+			int64(i.Capacity), c20ProofFlag(i), feat, c20hx(i.ExtraOpaqueData),
 			i.ChannelPoint.Hash.String()[:16], i.ChannelPoint.Index))
 		pol(i.ChannelID, 0, p1)
 		pol(i.ChannelID, 1, p2)
@@ -2410,6 +2410,13 @@ func TestVerifC20(t *testing.T) {
 		return q
 	}
 
+	// debugging aid (never set by the runner): only the announcement-signatures class
+	if os.Getenv("C20_ONLY") == "annsig" {
+		for v := 0; v < rep(14, 56); v++ {
+			h.caseAnnSig(v + 14*int(seed%4))
+		}
+		return
+	}
 	for v := 0; v < rep(2, 6); v++ {
 		h.caseCACorrupt(v)
 	}
@@ -2455,6 +2462,9 @@ func TestVerifC20(t *testing.T) {
 	h.caseOwn()
 	for v := 0; v < rep(2, 3); v++ {
 		h.caseAssumeValid(v)
+	}
+	for v := 0; v < rep(14, 56); v++ {
+		h.caseAnnSig(v + 14*int(seed%4))
 	}
 	h.concCases(thorough, seed)
 	nrand := rep(300, 4000)
